@@ -329,7 +329,22 @@ class BP:
                 depth += (x == "(") - (x == ")")
             self.eat(";")
             return ("block", [])
-        if tok in ("for", "while", "do", "switch", "goto", "break", "continue", "try", "throw"):
+        if tok == "for":
+            self.eat(); self.eat("(")
+            init = self.stmt()                       # a declaration / expression statement / `;`
+            cond = ("num", 1)
+            if self.peek() != ";":
+                cond = self.expr()
+            self.eat(";")
+            step = []
+            while self.peek() != ")":
+                step.append(("expr", self.expr()))
+                if self.peek() == ",":
+                    self.eat()
+            self.eat(")")
+            body = self.stmt()
+            return ("for", init, cond, step, body)
+        if tok in ("while", "do", "switch", "goto", "break", "continue", "try", "throw"):
             self.refuse(f"statement `{tok}`")
         # declarations
         j = self.i
@@ -366,11 +381,22 @@ class BP:
                 self.refuse(f"declarator of `{name}`")
             self.eat("=")
             e = self.expr()
-            if self.peek() == ",":
-                self.refuse("several declarators in one declaration")
+            tymap = {("usize", False): "nat", ("char", True): "cptr", ("Data", True): "dptr", ("char", False): "nat"}
+            decls = [("decl", tymap[(ty, ptr)], name, e)]
+            while self.peek() == ",":                # further declarators of the same base type
+                self.eat()
+                ptr2 = False
+                if self.peek() == "*":
+                    self.eat(); ptr2 = True
+                if self.peek() == "const":
+                    self.eat()
+                name2 = self.eat()
+                if not IDENT.match(name2) or self.peek() != "=":
+                    self.refuse(f"declarator of `{name2}`")
+                self.eat("=")
+                decls.append(("decl", tymap[(ty, ptr2)], name2, self.expr()))
             self.eat(";")
-            cty = {("usize", False): "nat", ("char", True): "cptr", ("Data", True): "dptr", ("char", False): "nat"}[(ty, ptr)]
-            return ("decl", cty, name, e)
+            return decls[0] if len(decls) == 1 else ("block", decls)
         e = self.expr()
         self.eat(";")
         return ("expr", e)
@@ -440,6 +466,9 @@ class BP:
         if tok == "-" and re.fullmatch(r"\d+", self.peek(1) or ""):
             self.eat()
             return ("inum", -int(self.eat()))
+        if tok == "++" and IDENT.match(self.peek(1) or "") and self.peek(2) in (")", ",", ";"):
+            self.eat()
+            return ("preinc", ("id", self.eat()))
         if tok in ("++", "--", "-", "~", "+"):
             self.refuse(f"operator `{tok}`")
         if tok == "sizeof":
@@ -533,6 +562,7 @@ class BT:
         self.tmps = 0                          # extra slots for local String objects
         self.params = params                   # source name -> (lean term, type)
         self.depth, self.k_inl, self.src = 0, 0, None
+        self.nloops, self.aux, self.uses_fuel, self.loopdef, self.lean, self.rty = 0, [], False, None, "f", "Option St"
         self.fmt = next((n for n, (_, ty) in params.items() if ty == "fmt"), None)
 
     def refuse(self, what):
@@ -566,8 +596,12 @@ class BT:
             self.refuse(f"identifier `{x}`")
         if k == "deref":
             t, ty = self.ev(e[1], env, out, ind)
+            if ty == "cptr":
+                r = self.fresh()
+                out.append(f"{ind}let {r} ← loadChar s {t} 0")
+                return r, "nat"
             if ty != "objptr":
-                self.refuse("`*` on something that is not `this`")
+                self.refuse("`*` on something that is not `this` or a char pointer")
             return t, "obj"
         if k == "addr":
             if e[1] == ("id", "emptyData"):
@@ -649,6 +683,8 @@ class BT:
                 lop = {"==": "=", "!=": "≠", "<": "<", "<=": "≤", ">": ">", ">=": "≥"}[op]
                 if aty == bty and (aty == "nat" or (aty in ("dptr", "objptr") and op in ("==", "!="))):
                     return f"({a} {lop} {b})", "bool"
+                if aty == "cptr" and bty == "cptr" and op in ("<", "<=", ">", ">="):
+                    return f"({a}.off {lop} {b}.off)", "bool"       # pointers into the same object
                 self.refuse(f"`{op}` on {aty} and {bty}")
             self.refuse(f"operator `{op}`")
         if k == "not":
@@ -929,6 +965,40 @@ class BT:
             env2 = dict(env)
             env2[name] = (v, ty)
             return out + self.run(rest, env2, ind, objs, ret)
+        if k == "for":
+            init, c, step, body = s[1], s[2], s[3], s[4]
+            if self.loopdef is not None and False:
+                self.refuse("nested loops")
+            return self.run([init, ("loop", c, step, body)] + rest, env, ind, objs, ret)
+        if k == "loop":
+            if objs:
+                self.refuse("a loop while a local String is alive")
+            c, step, body = s[1], s[2], s[3]
+            self.nloops += 1
+            name = f"{self.lean}_loop{self.nloops}"
+            keys = [x for x in env if not env[x][1].startswith("unset:")]
+            sig = "".join(f" ({env[x][0]} : {LEAN_TY2[env[x][1]]})" for x in keys)
+            back = ("loopback", name, keys)
+            lines = self.cond(c, env, "    ",
+                              lambda env2, ind2: self.run([body] + list(step) + [back], env2, ind2, objs, ret),
+                              lambda env2, ind2: self.run(rest, env2, ind2, objs, ret))
+            self.aux.append([f"/-- loop {self.nloops} of `{self.fn}` (with everything behind it); running out of `fuel` is a fault -/",
+                             f"def {name} (fuel : Nat) (s : St) (this : Nat){sig} : {self.rty} :=",
+                             "  match fuel with", "  | 0 => none", "  | fuel + 1 => do"] + lines + [""])
+            self.uses_fuel = True
+            return [f"{ind}{name} fuel s this" + "".join(f" {env[x][0]}" for x in keys)]
+        if k == "loopback":
+            return [f"{ind}{s[1]} fuel s this" + "".join(f" {env[x][0]}" for x in s[2])]
+        if k == "expr" and s[1][0] == "preinc":
+            x = s[1][1][1]
+            if x not in env or env[x][1] not in ("cptr", "nat") or x in self.params:
+                self.refuse(f"`++{x}`")
+            v = self.fresh()
+            ty = env[x][1]
+            out = [f"{ind}let {v} := " + (f"padd {env[x][0]} 1" if ty == "cptr" else f"{env[x][0]} + 1")]
+            env2 = dict(env)
+            env2[x] = (v, ty)
+            return out + self.run(rest, env2, ind, objs, ret)
         if k == "declvar":
             if s[2] in env:
                 self.refuse(f"`{s[2]}` declared twice")
@@ -981,6 +1051,14 @@ class BT:
                              lambda env2, ind2: self.run([s[3]] + rest, env2, ind2, objs, ret))
         if k == "return":
             e = s[1]
+            if ret == "ptr":
+                if e == ("num", 0):
+                    return [f"{ind}pure none"]
+                out = []
+                t, ty = self.ev(e, env, out, ind)
+                if ty != "cptr" or objs:
+                    self.refuse("this return value")
+                return out + [f"{ind}pure (some {t})"]
             if ret in ("nat", "bool"):
                 out = []
                 t, ty = self.ev(e, env, out, ind) if e is not None else (None, None)
@@ -1051,6 +1129,7 @@ BODY_FUNCS = [
     ("clear", r"void\s+clear\s*\(\s*\)", [], "void", "clear()"),
     ("capacity", r"usize\s+capacity\s*\(\s*\)\s*const", [], "nat", "capacity()"),
     ("isEmpty", r"bool\s+isEmpty\s*\(\s*\)\s*const", [], "bool", "isEmpty()"),
+    ("findC", r"const\s+char\s*\*\s*find\s*\(\s*char\s+(\w+)\s*\)\s*const", ["nat"], "ptr", "find(char)"),
     ("appendS", r"String\s*&\s*append\s*\(\s*" + P_STR + r"\s*\)", ["obj"], "self", "append(const String&)"),
     ("appendP", r"String\s*&\s*append\s*\(\s*const\s+char\s*\*\s*(\w+)\s*,\s*usize\s+(\w+)\s*\)", ["cptr", "nat"], "self", "append(const char*, usize)"),
     ("appendC", r"String\s*&\s*append\s*\(\s*(?:const\s+)?char\s+(\w+)\s*\)", ["nat"], "self", "append(char)"),
@@ -1061,6 +1140,7 @@ CPP_FUNCS = [
     ("printf", r"int\s+String::printf\s*\(\s*const\s+char\s*\*\s*(\w+)\s*,\s*\.\.\.\s*\)", ["fmt"], "int", "String::printf(const char*, ...)"),
 ]
 LEAN_TY = {"nat": "Nat", "obj": "Nat", "cptr": "CPtr", "fmt": "List Nat"}
+LEAN_TY2 = {"nat": "Nat", "obj": "Nat", "cptr": "CPtr", "fmt": "List Nat", "dptr": "Loc", "int": "Int", "objptr": "Nat"}
 
 
 def generate_body(repo):
@@ -1078,14 +1158,18 @@ def generate_body(repo):
         if len(set(names)) != len(names) or any(n in ("data", "this", "s") for n in names):
             raise Untranslatable(f"{cname}: parameter names {names}")
         params = {n: (("out" if ty == "fmt" else f"p_{n}"), ty) for n, ty in zip(names, ptys)}
+        rty = {"int": "Option (St × Int)", "nat": "Option Nat", "bool": "Option Bool", "ptr": "Option (Option CPtr)"}.get(ret, "Option St")
         tr = BT(cname, params, known)
-        tr.src = hpp
+        tr.src, tr.lean, tr.rty = hpp, lean, rty
         lines = tr.run(stmts, dict(params), "  ", [], ret)
         if sum("← newData " in l for l in lines) != sum("← setStr " in l for l in lines):
             raise Untranslatable(f"{cname}: a `new` without `X->str = (char*)((byte*)X + sizeof(Data))` (or the reverse)")
         sig = "(s : St) (this : Nat)" + "".join((" (out : List Nat)" if ty == "fmt" else f" (p_{n} : {LEAN_TY[ty]})") for n, ty in zip(names, ptys))
         sig += "".join(f" (tmp{i + 1} : Nat)" for i in range(tr.tmps))
-        rty = {"int": "Option (St × Int)", "nat": "Option Nat", "bool": "Option Bool"}.get(ret, "Option St")
+        for a in tr.aux:
+            parts += a
+        if tr.uses_fuel:
+            sig = "(fuel : Nat) " + sig
         parts += [f"/-- `{cname}` -/", f"def {lean} {sig} : {rty} := do"] + lines + [""]
         known.append(lean)
         summary.append(f"{lean}:{len(stmts)}")
